@@ -64,6 +64,9 @@ def lit_str(n):
     return None
 
 
+WILD = "\0wild"
+
+
 def pat_strs(pat):
     """all string literals a pattern can match (or-patterns flattened); '_' for wildcard/binding"""
     p = pat.get("p")
@@ -76,7 +79,7 @@ def pat_strs(pat):
             out += pat_strs(x)
         return out
     if p in ("wild", "bind"):
-        return ["_"]
+        return [WILD]
     if p == "ref":
         return pat_strs(pat["sub"])
     return []
@@ -149,7 +152,7 @@ def str_matches(owner):
         anylit = False
         for a in m["arms"]:
             ls = pat_strs(a["pat"])
-            if any(x != "_" for x in ls):
+            if any(x != WILD for x in ls):
                 anylit = True
             arms.append((ls, a))
         if anylit:
@@ -164,7 +167,7 @@ def match_str_arms_assign_fields(owner):
         for ls, a in arms:
             fs = sorted({fc[-1] for fc in assigned_fields(a["body"])})
             for l in ls:
-                if l != "_":
+                if l != WILD:
                     table.setdefault(l, [])
                     for f in fs:
                         if f not in table[l]:
